@@ -142,6 +142,20 @@ def rich_cascades(ctx):
                 if fus and rng.random() < 0.7:
                     nm, bs = rng.choice(fus)
                     b["bindings"] = [(x, y) for x, y in b["bindings"] if x != nm] + [(nm, [dict(z) for z in bs])]
+        if len(es) >= 2 and len(S["arch"]) >= 2 and not S.get("shared_names") and rng.random() < 0.3:
+            # two adjacent Einsums of one configuration both bind a compute unit that only ANOTHER configuration declares
+            i = rng.randrange(1, len(es))
+            a, b = es[i - 1], es[i]
+            if sorted(a["loop"]) == sorted(b["loop"]):
+                b["config"], b["loop"], b["space"] = a["config"], list(a["loop"]), list(a["space"])
+                own = set(c["name"] for c, _ in st.config_components(dict(S["arch"])[a["config"]]))
+                foreign = [c for cfg, tree in S["arch"] if cfg != a["config"] for c, _ in st.config_components(tree)
+                           if c["class"].lower() == "compute" and c["attrs"].get("type") == "mul" and c["name"] not in own]
+                if foreign:
+                    nm = rng.choice(foreign)["name"]
+                    for e in (a, b):
+                        e["bindings"] = [(x, y) for x, y in e["bindings"] if x in own and x != nm] + [(nm, [{"op": "mul"}])]
+                    stats["foreign_component_pairs"] = stats.get("foreign_component_pairs", 0) + 1
         feats = st.features(S)
         y = st.to_yaml(S)
         try:
